@@ -99,6 +99,24 @@ def tunnel_scenarios(tier):
                                 kinds='ARS', horizon=3000,
                                 features={'role': 'tunnel', 'flags': fname, 'c2u': c2u, 'u2c': u2c,
                                           '_expect_c': ACK + u2c, '_expect_u': c2u}))
+    # the upstream finishes FIRST (sends its bytes and closes) while the client is still talking: whatever the
+    # client does meanwhile -- sends more tunnel bytes, half-closes -- every upstream byte must still arrive.
+    # (Slow / one-byte client reads and short writes come from the R and S deviations.)
+    for fname, fl in flagsets:
+        for un in ('text7', 'bin') + (('s64',) if tier == 'thorough' else ()):
+            u2c = PAYLOADS[un]
+            for upi, up in enumerate(packings(u2c, tier, 2 if tier == 'quick' else 4)):
+                for cname, tail in (('talks-on', [('send', b'ab'), ('wait_recv', len(ACK) + 1), ('send', b'cd'), ('wait_eof',)]),
+                                    ('talks-then-halfcloses', [('send', b'ab'), ('wait_recv', len(ACK) + 1), ('send', b'cd'),
+                                                               ('shutdown_wr',), ('wait_eof',)]),
+                                    ('pipelines-at-once', [('send', b'abcd'), ('wait_eof',)])):
+                    out.append(Scenario(
+                        'tunnel-upstream-first/%s/%s<%s/%s' % (fname, un, pkname(up), cname), ['--threadless'] + fl, mode='local',
+                        clients=[dict(script=[('send', CONNECT), ('wait_recv', len(ACK))] + tail)],
+                        origins={('10.0.0.2', 443): (lambda up=up: RawOrigin(greeting=up, finally_='close'))},
+                        dns={'t.test': '10.0.0.2'}, kinds='ARS', horizon=3000,
+                        features={'role': 'tunnel', 'flags': fname, 'c2u': b'abcd', 'u2c': u2c, 'upstream_closes_first': True,
+                                  '_expect_c': ACK + u2c, '_expect_eof': True}))
     return out
 
 
